@@ -394,7 +394,7 @@ func c12ForwardArms(p *Prog, r *Report, rule string) {
 // ---------------------------------------------------------------- text fields
 
 func c12Extract(p *Prog, r *Report) {
-	r.Rule("C12.R7", "date text fields: for every accepted text length the three fields are cut as consecutive slices that start at position 0, have widths 2, 2 and 2 (short) or 4 (long), are separated by gaps of equal width 0 or 1, and end at the accepted length", 4)
+	r.Rule("C12.R7", "date text fields: for every accepted text length the three fields are cut as consecutive slices that start at position 0, have widths 2, 2 and 2 (short) or 4 (long), are separated by gaps of equal width 0 or 1, and end at the accepted length; the numbers returned are the parsed ones, unmodified", 5)
 	fi := p.Funcs["hermes.extractDate"]
 	if fi == nil {
 		r.Ob("extractDate", "-", false, "hermes.extractDate not found")
@@ -475,6 +475,73 @@ func c12Extract(p *Prog, r *Report) {
 	}
 	if n < 4 {
 		r.Ob("fields", p.Pos(fi.Decl.Pos()), false, fmt.Sprintf("%d accepted text lengths recognised, 4 confirmed (6 and 8 short, 8 and 10 long)", n))
+	}
+	// what is returned is what was parsed: the three numeric results are assigned only from the integer parse of a
+	// text slice, their address is not taken, nothing else modifies them (a "repair" of a field — 0 → 1 — turns the
+	// two-digit year 00 into 01)
+	{
+		var res []types.Object
+		if fi.Decl.Type.Results != nil {
+			for _, f := range fi.Decl.Type.Results.List {
+				for _, nm := range f.Names {
+					if o := info.Defs[nm]; o != nil {
+						if b, ok := o.Type().Underlying().(*types.Basic); ok && b.Kind() == types.Int {
+							res = append(res, o)
+						}
+					}
+				}
+			}
+		}
+		isRes := func(o types.Object) bool {
+			for _, x := range res {
+				if x == o {
+					return true
+				}
+			}
+			return false
+		}
+		bad := ""
+		nAs := 0
+		ast.Inspect(fi.Decl.Body, func(m ast.Node) bool {
+			switch t := m.(type) {
+			case *ast.AssignStmt:
+				for i, l := range t.Lhs {
+					if !isRes(useObj(info, l)) {
+						continue
+					}
+					nAs++
+					okv := false
+					if i < len(t.Rhs) && t.Tok == token.ASSIGN {
+						rhs := stripParens(t.Rhs[i])
+						if c, ok := rhs.(*ast.CallExpr); ok && len(c.Args) == 1 {
+							if tv, ok := info.Types[c.Fun]; ok && tv.IsType() {
+								rhs = stripParens(c.Args[0])
+							}
+						}
+						if c, ok := rhs.(*ast.CallExpr); ok && len(c.Args) >= 1 {
+							if f := callee(info, c); f != nil && f.Name() == "ValAsInt" {
+								if _, isSlice := stripParens(c.Args[0]).(*ast.SliceExpr); isSlice {
+									okv = true
+								}
+							}
+						}
+					}
+					if !okv {
+						bad += fmt.Sprintf("%s %s … at %s; ", types.ExprString(l), t.Tok, p.Pos(t.Pos()))
+					}
+				}
+			case *ast.IncDecStmt:
+				if isRes(useObj(info, t.X)) {
+					bad += fmt.Sprintf("%s%s at %s; ", types.ExprString(t.X), t.Tok, p.Pos(t.Pos()))
+				}
+			case *ast.UnaryExpr:
+				if t.Op == token.AND && isRes(useObj(info, t.X)) {
+					bad += fmt.Sprintf("&%s at %s; ", types.ExprString(t.X), p.Pos(t.Pos()))
+				}
+			}
+			return true
+		})
+		r.Ob("fields:as-parsed", p.Pos(fi.Decl.Pos()), len(res) == 3 && nAs >= 12 && bad == "", fmt.Sprintf("%d numeric results, %d assignments from the integer parse of a text slice; anything else touching them: %s", len(res), nAs, orStr(bad, "nothing")))
 	}
 	_ = strings.Join
 }
